@@ -1,4 +1,4 @@
-//@@ unit c01_cont properties=C01 nodegrade
+//@@ unit c01_cont properties=C01,C07 nodegrade strictcallees
 #![allow(unused_imports, dead_code, unused_variables, unused_mut)]
 use vstd::prelude::*;
 
